@@ -330,7 +330,7 @@ func (n *Node) Step(ctx context.Context) (err error) {
 			panic(r)
 		}
 	}()
-	n.W.Tr.Emit("StepBegin", F{"node": n.Opts.Name})
+	n.W.Tr.Emit("StepEnter", F{"node": n.Opts.Name})
 	e := n.M.VerifPublishBlock(ctx)
 	msg := ""
 	if e != nil {
